@@ -58,11 +58,12 @@ class SimClock:
 
 # --------------------------------------------------------------------------- disk
 class _Inode:
-    __slots__ = ("durable", "cache")
+    __slots__ = ("durable", "cache", "cache_mode")
 
     def __init__(self) -> None:
         self.durable: Optional[bytes] = None
         self.cache: Optional[bytearray] = None
+        self.cache_mode = "trunc"  # how the dirty cache came about: "trunc" (opened 'wb': old blocks freed) or "inplace" ('r+b'/'ab')
 
     def visible(self) -> Optional[bytes]:
         if self.cache is not None:
@@ -71,19 +72,55 @@ class _Inode:
 
 
 class _SimRawWriter(io.RawIOBase):
-    def __init__(self, disk: "SimDisk", path: str, inode: _Inode):
+    """Raw file opened for writing ('wb', 'ab', 'xb', 'r+b'). Position based: 'r+b' overwrites in place."""
+
+    def __init__(self, disk: "SimDisk", path: str, inode: _Inode, pos: int = 0, readable: bool = False):
         super().__init__()
         self.disk = disk
         self.path = path
         self.inode = inode
-        self.pos = 0
+        self.pos = pos
+        self._readable = readable
 
     def writable(self) -> bool:
         return True
 
-    def seekable(self) -> bool:
-        return False
+    def readable(self) -> bool:
+        return self._readable
 
+    def seekable(self) -> bool:
+        return True
+
+    def tell(self) -> int:
+        return self.pos
+
+    def seek(self, off: int, whence: int = 0) -> int:
+        size = len(self.inode.cache or b"")
+        self.pos = max(0, off if whence == 0 else (self.pos + off if whence == 1 else size + off))
+        return self.pos
+
+    def truncate(self, size: Optional[int] = None) -> int:
+        self.disk.world.seam("disk_truncate")
+        if self.disk.dead:
+            raise SimCrash("process is dead")
+        size = self.pos if size is None else size
+        assert self.inode.cache is not None
+        if size < len(self.inode.cache):
+            del self.inode.cache[size:]
+        else:
+            self.inode.cache.extend(b"\0" * (size - len(self.inode.cache)))
+        return size
+
+    def fileno(self) -> int:
+        return self.disk.fd_for(self.inode)
+
+    def readinto(self, b: Any) -> int:  # type: ignore[override]
+        mv = memoryview(b).cast("B")
+        data = self.inode.cache or b""
+        n = min(len(mv), max(0, len(data) - self.pos))
+        mv[:n] = data[self.pos : self.pos + n]
+        self.pos += n
+        return n
 
     def write(self, b: Any) -> int:  # type: ignore[override]
         d = self.disk
@@ -107,8 +144,11 @@ class _SimRawWriter(io.RawIOBase):
             k = 1 + (d.write_calls * 2654435761) % (n - 1)
             w.faults.hit("disk_short_write")
             n = k
-        assert self.inode.cache is not None
-        self.inode.cache += mv[:n].tobytes()
+        cache = self.inode.cache
+        assert cache is not None
+        if self.pos > len(cache):
+            cache.extend(b"\0" * (self.pos - len(cache)))
+        cache[self.pos : self.pos + n] = mv[:n].tobytes()
         self.pos += n
         w.log.add("disk_write", [self.path, n])
         return n
@@ -248,6 +288,7 @@ class SimDisk:
         if ino.cache is not None:
             ino.durable = bytes(ino.cache)
             ino.cache = None
+            ino.cache_mode = "trunc"
             self.world.faults.hit("disk_fsync")
         self.world.log.add("disk_fsync", fd)
 
@@ -281,23 +322,36 @@ class SimDisk:
             raise FileNotFoundError(errno.ENOENT, "No such file (simulated)", path)
         return len(c)
 
-    def open(self, path: str, mode: str = "r", *a: Any, **kw: Any) -> Any:
+    def open(self, path: str, mode: str = "r", buffering: int = -1, *a: Any, **kw: Any) -> Any:
         w = self.world
         w.seam("disk_open")
         self.open_calls += 1
         path = str(path)
         if "b" not in mode:
             raise ValueError("SimDisk only supports binary mode")
-        if "w" in mode or "a" in mode or "x" in mode:
+        unbuffered = buffering == 0
+        if "w" in mode or "a" in mode or "x" in mode or ("r" in mode and "+" in mode):
             if "x" in mode and self.exists(path):
                 raise FileExistsError(errno.EEXIST, "File exists (simulated)", path)
+            if "r" in mode and not self.exists(path):
+                w.log.add("disk_open", [path, mode, "ENOENT"])
+                raise FileNotFoundError(errno.ENOENT, "No such file (simulated)", path)
             ino = self.inodes.setdefault(path, _Inode())
-            if "a" in mode:
+            pos = 0
+            if "a" in mode or "r" in mode:
+                if ino.cache is None:
+                    ino.cache_mode = "inplace"  # old blocks stay allocated and are overwritten in place
                 ino.cache = bytearray(ino.visible() or b"")
+                pos = len(ino.cache) if "a" in mode else 0
             else:
-                ino.cache = bytearray()  # O_TRUNC happens at open, in the cache
-            w.log.add("disk_open", [path, "wb"])
-            raw = _SimRawWriter(self, path, ino)
+                ino.cache = bytearray()  # O_TRUNC happens at open, in the cache; the old blocks are freed
+                ino.cache_mode = "trunc"
+            w.log.add("disk_open", [path, mode])
+            raw = _SimRawWriter(self, path, ino, pos, readable="+" in mode)
+            if unbuffered:
+                return raw
+            if "+" in mode:
+                return io.BufferedRandom(raw, buffer_size=self.buffer_size)
             return _SimWriteFile(self, path, ino, io.BufferedWriter(raw, buffer_size=self.buffer_size))
         if "r" in mode:
             ino = self.inodes.get(path)
@@ -306,7 +360,10 @@ class SimDisk:
                 w.log.add("disk_open", [path, "rb", "ENOENT"])
                 raise FileNotFoundError(errno.ENOENT, "No such file (simulated)", path)
             w.log.add("disk_open", [path, "rb", len(data)])
-            return io.BufferedReader(_SimRawReader(self, path, data), buffer_size=self.buffer_size)
+            raw_r = _SimRawReader(self, path, data)
+            if unbuffered:
+                return raw_r
+            return io.BufferedReader(raw_r, buffer_size=self.buffer_size)
         raise ValueError(f"SimDisk: unsupported mode {mode}")
 
     def sync(self) -> None:
@@ -317,8 +374,13 @@ class SimDisk:
         self.world.log.add("disk_sync")
 
     def crash(self, rng: random.Random) -> dict[str, str]:
-        """Process death: per inode keep durable bytes overlaid with a drawn subset of the cached
-        blocks (complete / lost / torn). Returns path -> outcome."""
+        """Process death. Per dirty inode one of:
+          complete  - everything cached reached the disk;
+          lost      - nothing did (the old durable content, if any, is intact);
+          truncated - a strict or full prefix of the cached stream (sequential writes after O_TRUNC land in order);
+          torn      - only for files overwritten IN PLACE ('r+b'/'ab'): a block-wise mix of old and new content.
+        A file that was truncated at open and written sequentially never comes back with old blocks in it (they were
+        freed), so the unchanged save() leaves old, new, or a prefix of new - never a same-length hybrid."""
         outcome: dict[str, str] = {}
         for path in sorted(self.inodes):
             ino = self.inodes[path]
@@ -327,7 +389,8 @@ class SimDisk:
                 continue
             cache = bytes(ino.cache)
             old = ino.durable
-            mode = rng.choice(["complete", "lost", "torn", "truncated"])
+            modes = ["complete", "lost", "truncated", "truncated"] if ino.cache_mode == "trunc" else ["complete", "lost", "torn", "torn"]
+            mode = rng.choice(modes)
             if mode == "complete":
                 new: Optional[bytes] = cache
             elif mode == "lost":
@@ -336,7 +399,7 @@ class SimDisk:
                 new = cache[: rng.randrange(0, len(cache) + 1)]
             else:
                 base = bytearray(old or b"")
-                length = rng.choice([len(cache), len(base), rng.randrange(0, max(len(cache), 1) + 1)])
+                length = rng.choice([len(cache), len(base)])
                 buf = bytearray(length)
                 buf[: min(length, len(base))] = base[: min(length, len(base))]
                 for off in range(0, min(length, len(cache)), self.BLOCK):
@@ -346,6 +409,7 @@ class SimDisk:
                 new = bytes(buf)
             ino.durable = new
             ino.cache = None
+            ino.cache_mode = "trunc"
             outcome[path] = mode
             self.world.faults.hit("disk_crash_" + mode)
         self.world.log.add("disk_crash", outcome)
